@@ -7,6 +7,8 @@ Case lines (shared with harness/c04/c04.c):
   cfgint <index> <value>                      config_int[index] (indices regenerated: Gen.C04.cfg*)
   depth <n> | stack <n>                       MaxCallDepth / StackSize of the case
   mset set_handler_catches <0|1>              the master's error_handler completes a catch()
+  reconf MaxEvaluationCost <v>                the budget as read by init_config () (clamped)
+  ev sizes set_limit <n>                      the budget as set by LPC set_eval_limit (n) (clamped)
   shape <term>                                the abstract shape of the LPC program loaded as `p` (ignored by the harness)
   ev p main                                   one driver-started evaluation of the program
   sz <constructor> <args...>                  one size decision
@@ -169,7 +171,7 @@ def szCmd (l : Limits) (ctor : String) (a : List Int) : Option SzR :=
       andThen (stringJoin p q l.maxString) fun _ => andThen (str r) fun rl =>
         replaceFamily p (q / 2) rl l.maxString.toNat)
   | "sprintf", [x, y] =>
-    some (andThen (str x) fun p => andThen (str y) fun q => andThen (sprintfAdd 0 p) fun real => sprintfAdd real q)
+    some (andThen (str x) fun p => andThen (str y) fun q => andThen (sprintfAdd 0 p) fun real => andThen (sprintfAdd real q) fun r => sprintfFinish r l.maxString)
   | _, _ => none
 
 def setCfgInt (l : Limits) (idx : Nat) (v : Int) : Limits :=
@@ -190,7 +192,7 @@ def runEv (p : Parsed) : List String :=
   let evs := s.evs.reverse.filterMap renderEv
   let last := match out with
     | .ok => "r ret 0"
-    | .raised _ => if cfg.handlerCatches then "r err" else s!"r err es={s.es}"
+    | .raised _ => s!"r err es={s.es}"
     | .fuel => "timeout"
   evs ++ [last]
 
@@ -210,6 +212,19 @@ def parseLine (mode : Bool) (p : Parsed) (line : String) : Parsed :=
   | ["stack", n] =>
     match n.toInt? with
     | some n => { p with lim := { p.lim with stack := n } }
+    | none => { p with bad := line :: p.bad }
+  | ["reconf", "MaxEvaluationCost", v] =>
+    -- the value goes through init_config (): clamped to at least 1
+    match v.toInt? with
+    | some v => { p with lim := { p.lim with cost := clampCost v } }
+    | none => { p with bad := line :: p.bad }
+  | ["ev", "sizes", "set_limit", v] =>
+    -- set_eval_limit (n), n other than 0 / 1 / -1: MaxEvaluationCost = (int) n, clamped to at least 1; the LPC
+    -- function returns the new budget
+    match v.toInt? with
+    | some v =>
+      let c := clampCost (toInt32 v)
+      { p with lim := { p.lim with cost := c }, out := if mode then s!"r ret {c}" :: p.out else p.out }
     | none => { p with bad := line :: p.bad }
   | ["mset", "set_handler_catches", v] => { p with lim := { p.lim with handlerCatches := v != "0" } }
   | ["shape", t] =>
